@@ -413,8 +413,16 @@ Rename      == c.part = "C12" => C12Eval(c, "rename")
 EmitCases   == Emit => CASE c.part = "C07" -> LinEval(c, "emit")
                          [] c.part = "TP"  -> TPEval(c, "emit")
                          [] c.part = "C12" -> C12Eval(c, "emit")
+                         [] OTHER          -> TRUE
 
-Init == c \in Configs
-Next == UNCHANGED c
+\* TLC evaluates the invariants of initial states in one thread: the initial states are seeds (one per domain geometry /
+\* boundary condition) and the configurations are their successors, so that the workers share the enumeration.
+SeedKey(k) == IF k.part = "TP" THEN <<k.bc>> ELSE <<k.dg>>
+Init == c \in {[part |-> "seed", key |-> SeedKey(k)] : k \in Configs}
+Next == \/ c.part = "seed" /\ c' \in {k \in Configs : SeedKey(k) = c.key}
+        \/ c.part # "seed" /\ UNCHANGED c
 Spec == Init /\ [][Next]_c
+\* flat enumeration (used by the deviation configurations: TLC stops at the first violating initial state)
+InitFlat == c \in Configs
+NextFlat == UNCHANGED c
 =============================================================================
